@@ -33,6 +33,7 @@ import (
 	"bytes"
 	"encoding/json"
 	"errors"
+	"flag"
 	"fmt"
 	"math/big"
 	"os"
@@ -195,15 +196,15 @@ func (c *collector) AddIntermediateTransactions(txs []data.TransactionHandler) e
 	c.txs = append(c.txs, txs...)
 	return nil
 }
-func (c *collector) GetNumOfCrossInterMbsAndTxs() (int, int)                          { return 0, 0 }
-func (c *collector) CreateAllInterMiniBlocks() []*block.MiniBlock                     { return nil }
-func (c *collector) VerifyInterMiniBlocks(*block.Body) error                          { return nil }
-func (c *collector) SaveCurrentIntermediateTxToStorage() error                        { return nil }
-func (c *collector) GetAllCurrentFinishedTxs() map[string]data.TransactionHandler     { return nil }
-func (c *collector) CreateBlockStarted()                                              { c.txs = nil }
-func (c *collector) GetCreatedInShardMiniBlock() *block.MiniBlock                     { return nil }
-func (c *collector) RemoveProcessedResultsFor([][]byte)                               {}
-func (c *collector) IsInterfaceNil() bool                                             { return c == nil }
+func (c *collector) GetNumOfCrossInterMbsAndTxs() (int, int)                      { return 0, 0 }
+func (c *collector) CreateAllInterMiniBlocks() []*block.MiniBlock                 { return nil }
+func (c *collector) VerifyInterMiniBlocks(*block.Body) error                      { return nil }
+func (c *collector) SaveCurrentIntermediateTxToStorage() error                    { return nil }
+func (c *collector) GetAllCurrentFinishedTxs() map[string]data.TransactionHandler { return nil }
+func (c *collector) CreateBlockStarted()                                          { c.txs = nil }
+func (c *collector) GetCreatedInShardMiniBlock() *block.MiniBlock                 { return nil }
+func (c *collector) RemoveProcessedResultsFor([][]byte)                           {}
+func (c *collector) IsInterfaceNil() bool                                         { return c == nil }
 
 // ---------------------------------------------------------------- world
 
@@ -590,9 +591,6 @@ func (w *world) judge(tx *transaction.Transaction, o op, pre ledger, r stepResul
 			add("class:insufficient-funds-not-charged-the-fee:"+r.class, "balance %s covers gasLimit*gasPrice %s but not value %s + fee; error %v", bal, maxCost, tx.Value, r.err)
 		}
 	}
-	if r.class == "charged-failure" && bal.Cmp(vPlus(maxCost)) < 0 && !errors.Is(r.err, process.ErrFailedTransaction) {
-		add("class:internal", "unreachable")
-	}
 	return fs
 }
 
@@ -645,7 +643,7 @@ func (s *searcher) expand(n node, menu []op, judgeAllPrefix bool) []succ {
 		pre := w.led
 		r := w.apply(tx)
 		if judgeAllPrefix {
-			s.report(w, n.cfg, hist, txs, o, tx, pre, r, w.judge(tx, o, pre, r))
+			s.report(w, n.cfg, n.path[:len(hist)], hist, txs, o, tx, pre, r, w.judge(tx, o, pre, r))
 		}
 		if r.class != "success" && r.class != "charged-failure" {
 			c.Fatal("replay of %v in %v: %v was %s", n.path, n.cfg, o, r.class)
@@ -674,7 +672,7 @@ func (s *searcher) expand(n node, menu []op, judgeAllPrefix bool) []succ {
 		r := w.apply(tx)
 		c.Eval(1)
 		fs := w.judge(tx, o, pre, r)
-		s.report(w, n.cfg, hist, txs, o, tx, pre, r, fs)
+		s.report(w, n.cfg, n.path, hist, txs, o, tx, pre, r, fs)
 		errClass := "nil"
 		if r.err != nil {
 			errClass = r.err.Error()
@@ -683,7 +681,11 @@ func (s *searcher) expand(n node, menu []op, judgeAllPrefix bool) []succ {
 			}
 		}
 		c.Outcome(fmt.Sprintf("%s|%s|receipts=%d|bad=%d|self=%v|newRcv=%v", r.class, errClass, len(r.receipts), r.badTx, o.S == o.R, !pre[o.R].Exists))
-		c.Count("class:"+r.class, 1)
+		rk := "none"
+		if len(r.receipts) > 0 {
+			rk = r.receipts[0][:strings.Index(r.receipts[0], ":")]
+		}
+		c.Count(fmt.Sprintf("outcome:%s|%s|receipt=%s", r.class, errClass, rk), 1)
 		charged := r.class == "success" || r.class == "charged-failure"
 		if charged && len(n.path) > 0 && (touched[o.S] || touched[o.R]) {
 			// non-trivial: a charged transaction whose sender or receiver was modified earlier in the sequence
@@ -695,7 +697,7 @@ func (s *searcher) expand(n node, menu []op, judgeAllPrefix bool) []succ {
 		rootAfter := w.root()
 		if r.class == "rejected" || r.class == "panic" {
 			if rootAfter != root0 {
-				s.report(w, n.cfg, hist, txs, o, tx, pre, r, []finding{{"rejected:accounts-trie-root-changed", "state root differs after the caller's RevertToSnapshot"}})
+				s.report(w, n.cfg, n.path, hist, txs, o, tx, pre, r, []finding{{"rejected:accounts-trie-root-changed", "state root differs after the caller's RevertToSnapshot"}})
 				// restore for the siblings
 				must(w.adb.RevertToSnapshot(j0))
 			}
@@ -717,7 +719,7 @@ func (s *searcher) expand(n node, menu []op, judgeAllPrefix bool) []succ {
 	return out
 }
 
-func (s *searcher) report(w *world, cf cfg, hist []string, txs []map[string]interface{}, o op, tx *transaction.Transaction, pre ledger, r stepResult, fs []finding) {
+func (s *searcher) report(w *world, cf cfg, prefix []op, hist []string, txs []map[string]interface{}, o op, tx *transaction.Transaction, pre ledger, r stepResult, fs []finding) {
 	for _, f := range fs {
 		errS := "nil"
 		if r.err != nil {
@@ -727,27 +729,8 @@ func (s *searcher) report(w *world, cf cfg, hist []string, txs []map[string]inte
 		t := append(append([]map[string]interface{}{}, txs...), txJSON(tx))
 		s.c.ViolationR(f.sig, len(h)*100000+o.S*30000+o.R*10000+o.V*1000+o.N*100+o.GL*10+o.GP,
 			witness{Config: cf.String(), History: h, Txs: t, Before: pre.String(), After: r.post.String(), Error: errS, What: f.what},
-			replayData{Cfg: cf, Path: pathOf(w, hist, o)})
+			replayData{Cfg: cf, Path: append(append([]op{}, prefix...), o)})
 	}
-}
-
-// pathOf is filled by the caller through lastPath (kept simple: the replay artefact stores
-// letters, which are re-concretized during replay).
-func pathOf(w *world, hist []string, o op) []op {
-	var p []op
-	for _, h := range hist {
-		p = append(p, parseOp(h))
-	}
-	return append(p, o)
-}
-
-func parseOp(s string) op {
-	for _, o := range buildMenu(false) {
-		if o.String() == s {
-			return o
-		}
-	}
-	panic("unknown letter " + s)
 }
 
 func main() {
@@ -755,11 +738,19 @@ func main() {
 	if os.Getenv("GOGC") == "" {
 		debug.SetGCPercent(400)
 	}
+	depthFullFlag := flag.Int("depthfull", 0, "override the number of positions filled from the full alphabet (development aid)")
+	depthCoreFlag := flag.Int("depthcore", -1, "override the total sequence length reached with the core alphabet (development aid)")
 	mc.Main("C23", "exploration", func(c *mc.Ctx) {
 		full := buildMenu(false)
 		core := buildMenu(true)
-		depthFull := 2
-		depthCore := c.Pick(2, 3)
+		depthFull := c.Pick(2, 3)
+		depthCore := c.Pick(3, 4)
+		if *depthFullFlag > 0 {
+			depthFull = *depthFullFlag
+		}
+		if *depthCoreFlag >= 0 {
+			depthCore = *depthCoreFlag
+		}
 		if c.Quick() {
 			c.Deadline = time.Now().Add(80 * time.Second)
 		} else {
@@ -844,7 +835,7 @@ func main() {
 		c.Set("configurations", len(cfgs))
 		c.Bound = fmt.Sprintf("all sequences of <= %d transactions over the full %d-letter alphabet", min(reached, depthFull), len(full))
 		if reached > depthFull {
-			c.Bound += fmt.Sprintf(", extended to %d transactions with last letter from the %d-letter core alphabet (gasPrice=min, values {0,1,bal-cost,bal-cost+1,bal+1})", reached, len(core))
+			c.Bound += fmt.Sprintf(", each extended to %d transactions with the further letters from the %d-letter core alphabet (gasPrice=min, values {0,1,bal-cost,bal-cost+1,bal+1})", reached, len(core))
 		}
 		c.Bound += fmt.Sprintf("; %d configurations; sequences merged by state", len(cfgs))
 	})
